@@ -196,6 +196,30 @@ def check(prog, rep, tier):
                         found='the configured local capability set is modified at run time: %s' % txt,
                         expected='written by configuration code only', key=key)
 
+    # the peer's capability set of THIS OPEN replaces the stored one on every accepted OPEN (otherwise the
+    # per-session flags are derived from an earlier session's OPEN)
+    orf = bgp.find_method('_open_received')
+    rw = [n for n in ast.walk(orf.node) if isinstance(n, ast.Assign) and
+          any(isinstance(t, ast.Subscript) and src_of(t).endswith("['capability']['remote']") for t in n.targets)]
+    if len(rw) != 1:
+        rep.bad('R05.d', 'remote-caps-stored', file=orf.file, line=orf.node.lineno, func=orf.qualname,
+                found="%d assignments to running_config['capability']['remote'] in _open_received" % len(rw),
+                expected='exactly one, unconditional', key='remote-caps-stored')
+    else:
+        encl = [(t, v) for t, v in common.conds_at(orf.node, rw[0])
+                if any(rw[0] is x for i in ast.walk(orf.node) if isinstance(i, ast.If) and i.test is t
+                       for b in (i.body + i.orelse) for x in ast.walk(b))]
+        if encl or 'capa_dict' not in src_of(rw[0].value):
+            rep.bad('R05.d', 'remote-caps-stored', file=orf.file, line=rw[0].lineno, func=orf.qualname,
+                    found="the peer's capability set is stored only when %s (value %s): otherwise the set of an earlier "
+                          'session stays and decides fourbytesas / add-path / families of this one' % (
+                              ' and '.join(('' if v else 'not ') + src_of(t) for t, v in encl) or '(always)',
+                              src_of(rw[0].value)),
+                    expected="running_config['capability']['remote'] = <this OPEN's capa_dict> on every accepted OPEN",
+                    key='remote-caps-stored')
+        else:
+            rep.ok('R05.d', 'remote-caps-stored', file=orf.file, line=rw[0].lineno)
+
     # ---------------------------------------------------------------- R05.b
     open_construct(prog, rep)
 
